@@ -176,7 +176,8 @@ fn finish_result(res: StmtOutcome) -> Value {
 pub fn main(_args: &[String]) -> i32 {
     // Keep panics short on stderr.
     std::panic::set_hook(Box::new(|info| {
-        eprintln!("PANIC {}", info.to_string().lines().next().unwrap_or(""));
+        // one line: "panicked at <file>:<line>:<col>: <message>"
+        eprintln!("PANIC {}", info.to_string().lines().take(2).collect::<Vec<_>>().join(" "));
     }));
     let tokio_rt = new_tokio_runtime_for_io().unwrap();
     let stdin = std::io::stdin();
